@@ -923,3 +923,25 @@ def Not(x): return v_not(x)
 def Implies(a, b): return v_implies(a, b)
 def Ite(c, a, b): return v_ite(c, a, b)
 def Iff(a, b): return mkbool(z3_bool(a) == z3_bool(b))
+
+
+# ------------------------------------------------------------------ uninterpreted membership of sequences
+_MEM_FNS = {}
+
+
+def seq_mem_z3(seq_e, x_e):
+    """M(seq, x): carrier predicate for `x is an element of seq`, related to indices only through the facts the
+    sequence models (sorted, filter, concat, enumeration) assert — avoids goal-side existentials"""
+    key = str(seq_e.sort())
+    if key not in _MEM_FNS:
+        _MEM_FNS[key] = z3.Function("M_" + key.replace("(", "_").replace(")", "").replace(" ", ""), seq_e.sort(), x_e.sort(), z3.BoolSort())
+    return _MEM_FNS[key](seq_e, x_e)
+
+
+def seq_mem(seq, x):
+    return mkbool(seq_mem_z3(seq.e, coerce(x, seq.ty.elem)))
+
+
+def mem_all_indices(seq_e):
+    i = z3.Int(fresh_name("mi"))
+    return z3.ForAll([i], z3.Implies(z3.And(i >= 0, i < z3.Length(seq_e)), seq_mem_z3(seq_e, seq_e[i])))
